@@ -155,4 +155,29 @@ def uploadAbortedAt (bs : Nat) (plan : Nat → Reply) (binary : List Nat) (j : N
   numberedFrom bs 0 (blocksOf trace) && pollsOk plan 0 trace && waitsOk plan j 0 trace &&
   (match trace.getLast? with | some (.block _ _) => true | _ => false)
 
+/-! ### requests that get no answer
+
+HPM.1, Upload firmware block: when no response arrives the upgrade agent repeats the block with the SAME block
+number; a controller that already took the block sees the number it has and ignores the duplicate.  The agent
+cannot tell a lost request from a lost response, so for the oracle a request the plan leaves unanswered did NOT
+reach the controller. -/
+
+/-- the Upload-firmware-block requests the controller received: those the plan answers (`i` = requests so far) -/
+def heardFrom (plan : Nat → Reply) : Nat → List Ev → List (Nat × List Nat)
+  | _, [] => []
+  | i, .status :: r => heardFrom plan i r
+  | i, .block n d :: r =>
+    if plan i = .noAnswer then heardFrom plan (i + 1) r else (n, d) :: heardFrom plan (i + 1) r
+
+/-- what the controller accepts: a request equal to its predecessor in number and data is a repetition -/
+def dropRepeats : List (Nat × List Nat) → List (Nat × List Nat)
+  | a :: b :: r => if a = b then dropRepeats (b :: r) else a :: dropRepeats (b :: r)
+  | l => l
+
+/-- the controller holds exactly `binary`: the blocks it accepted are the binary, in order, once, numbered
+consecutively modulo 256 from zero, non-empty and at most `bs` long -/
+def uploadDelivered (bs : Nat) (plan : Nat → Reply) (binary : List Nat) (trace : List Ev) : Bool :=
+  decide (((dropRepeats (heardFrom plan 0 trace)).map (·.2)).flatten = binary) &&
+  numberedFrom bs 0 (dropRepeats (heardFrom plan 0 trace))
+
 end PyIpmi.Spec.HpmDevice
